@@ -12,6 +12,10 @@ use std::cell::RefCell;
 pub enum Shape {
     /// self-describing formats: visit_map
     Map,
+    /// visit_map, but only the entries named in the `fields` hint of deserialize_struct are presented, in the
+    /// order of the hint - what serde's own `#[serde(flatten)]` buffer and property-lookup formats
+    /// (serde-wasm-bindgen style) do; with no hint (deserialize_map / deserialize_any) everything is presented
+    MapByHint,
     /// positional formats: visit_seq, fields in the order they were written
     Seq,
 }
@@ -146,7 +150,7 @@ impl<'de> de::Deserializer<'de> for SimDe<'de> {
                 access(self.st, "struct", name)?;
                 let order = order_of(self.p, fields, self.path);
                 match self.p.shape {
-                    Shape::Map => v.visit_map(MapAcc { fields, order, pos: 0, pending: None, de: self }),
+                    Shape::Map | Shape::MapByHint => v.visit_map(MapAcc { fields, order, pos: 0, pending: None, de: self }),
                     Shape::Seq => v.visit_seq(SeqAcc { fields, pos: 0, de: self }),
                 }
             }
@@ -155,7 +159,23 @@ impl<'de> de::Deserializer<'de> for SimDe<'de> {
     }
     serde::forward_to_deserialize_any! {
         bool i8 i16 i32 i64 i128 u8 u16 u32 u64 u128 f32 f64 char str string bytes byte_buf option unit
-        unit_struct newtype_struct seq tuple tuple_struct map struct enum identifier ignored_any
+        unit_struct newtype_struct seq tuple tuple_struct map enum identifier ignored_any
+    }
+    fn deserialize_struct<V: Visitor<'de>>(self, _name: &'static str, hint: &'static [&'static str], v: V) -> Result<V::Value, SimError> {
+        if let (Shape::MapByHint, Node::Struct { name, fields }) = (self.p.shape, self.node) {
+            access(self.st, "struct", name)?;
+            // entries the hint names, in the order of the hint, each at most once
+            let mut order = vec![];
+            for h in hint {
+                if let Some(i) = fields.iter().position(|(k, _)| k == h) {
+                    if !order.contains(&i) {
+                        order.push(i);
+                    }
+                }
+            }
+            return v.visit_map(MapAcc { fields, order, pos: 0, pending: None, de: self });
+        }
+        self.deserialize_any(v)
     }
     fn is_human_readable(&self) -> bool {
         self.p.human_readable
